@@ -14,7 +14,7 @@ def hostile_value(rng, depth=2):
     k = rng.random()
     if k < 0.30:
         return rng.choice([float("inf"), float("-inf"), float("nan"), "inf", "-inf", "nan", "Infinity", "-Infinity", "NaN",
-                           Decimal("Infinity"), Decimal("-Infinity"), Decimal("NaN"), Decimal("sNaN"), 10 ** 400, -10 ** 400,
+                           Decimal("Infinity"), Decimal("-Infinity"), Decimal("NaN"), Decimal("sNaN"), 10 ** 400, -10 ** 400, 10 ** 5000,
                            1e308, 5e-324, "1e400", "-1e400", "1e-400", 2 ** 63, -2 ** 63, "", " ", "\x00", "0x10", "1_000",
                            b"\xff\xfe", b"\x80abc", bytearray(b"ab"), memoryview(b"ab"), complex(1, 2), 1j,
                            "9" * 400, "[1, 2", "{", "}", "(", "a=b&c", "a=1;b", "[]", "{}", "()", "None", "null",
@@ -139,7 +139,7 @@ def run_impl(cseed):
                 break
         if isinstance(e, TypeError) and "keywords must be strings" in str(e):
             return ("out-of-scope",)       # a mapping with non-string keys reached cls.__init__( **data) at the top level
-        return ("other", type(e).__name__, site)
+        return ("other", type(e).__name__, site, str(e)[:60])
 
 
 def unhashable_finding():
@@ -151,6 +151,18 @@ def unhashable_finding():
     except Exception as e:
         from utype.utils import exceptions as exc
         return not isinstance(e, exc.ParseError)
+    return False
+
+
+def int_str_limit_finding():
+    from utype import Rule
+    from utype.utils import exceptions as exc
+    try:
+        Rule.annotate(dict, int, int)({10 ** 5000: 1})
+    except exc.ParseError:
+        return False
+    except ValueError:
+        return True
     return False
 
 
@@ -207,6 +219,9 @@ def main(tier, seed):
                     c["kind"] == "type" and findings.spec_has(c["spec"], lambda s: isinstance(s, tuple) and s and s[0] in ("set", "setc", "dict")):
                 known_hits["C04-unhashable"] = known_hits.get("C04-unhashable", 0) + 1
                 continue
+            if o[0] == "other" and o[1] == "ValueError" and "Exceeds the limit" in o[3]:
+                known_hits["C04-int-str-limit"] = known_hits.get("C04-int-str-limit", 0) + 1
+                continue
             if o[0] == "recursion":
                 known_hits["C04-recursion"] = known_hits.get("C04-recursion", 0) + 1
                 continue
@@ -220,7 +235,8 @@ def main(tier, seed):
     for c, o in bad[:3]:
         res.violations.append(dict(case=repr(c)[:2000], case_seed=seeds[hcases.index(c)], observed=repr(o),
                                    what="a non-ParseError exception or a hang escaped: %r" % (o,)))
-    findings.replay_all(res, PID, {"C04-unhashable": unhashable_finding, "C04-huge-exponent": huge_exponent_finding})
+    findings.replay_all(res, PID, {"C04-unhashable": unhashable_finding, "C04-huge-exponent": huge_exponent_finding,
+                                    "C04-int-str-limit": int_str_limit_finding})
     return core.finish(res, "make -C coq Props/C04.vo && coqc (Print Assumptions audit)", "see suites", search=None,
                        level_note="partial: the theorems cover the exception class for every declaration inside wf_ty (no_preserve options) "
                                   "and every data-class declaration; termination is a theorem only for the timestamp loop - resource "
